@@ -24,10 +24,12 @@
    Every server behaviour is covered: frames are parsed frames with arbitrary flags, lengths (padding: sf_len) and
    payloads, header blocks cut at any byte into any number of CONTINUATION frames, any interleaving of streams, and any
    schedule of callers, timers, Close and write failures in between ("for every event list"). *)
+From H2V Require Import Props.C02_statements.
 From H2V Require Import Base.Bytes Base.MachineInt Base.Result Gen.GenConsts Impl.Hpack Impl.ServerConn Impl.ServerInst
-  Impl.ClientConn Impl.ClientInst Spec.Http2Messages Spec.Http2Responses Proofs.CliBase Proofs.CliDefs Proofs.SrvIsoRef
+  Impl.ClientConn Impl.ClientInst Spec.Rfc7541 Spec.Http2Messages Spec.Http2Responses Proofs.HpackDefs Proofs.HpackEncDefs Proofs.HpackEncBlock
+  Proofs.CliBase Proofs.CliDefs Proofs.SrvIsoRef
   Proofs.CliMsgRef Proofs.CliMsgAuto Proofs.CliMsgMoves Proofs.CliMsgDisp Proofs.CliMsgStep Proofs.CliMsgInv Proofs.CliMsgFeed
-  Proofs.CliMsgRun Proofs.CliMsgIds Proofs.CliMsgThm Proofs.CliMsgReq Proofs.CliMsgDec Proofs.CliMsgInst.
+  Proofs.CliMsgRun Proofs.CliMsgIds Proofs.CliMsgThm Proofs.CliMsgReq Proofs.CliMsgDec Proofs.CliMsgReqDecSz Proofs.CliMsgReqDec Proofs.CliMsgInst.
 From Coq Require Import ZArith List Sorted String.
 Local Open Scope string_scope.
 Import ListNotations.
@@ -164,11 +166,13 @@ Print Assumptions C02_step_decomposition.
                                  with SetMaxTableSize calls in between, and is now in e
      rentry = (stream, tag, request, block);  re_hdr r = (stream, END_STREAM = request has no body, block)
    The HEADERS frames of ANY run are, in order, exactly the encoder's blocks for the requests of the Ctx that went out on
-   those streams (stream ids: (a)); while the write loop lives every block the encoder produced has been written, so an
-   RFC 7541 decoder that reads the frames in order is in step with it - for the instance that is C04_encoder_in_sync
-   (Props/C04.v) applied to the chain (SetMax = the size updates, Block = the field list of cl_request_block), and
-   Props/C02_statements.v c02_ex_requests / c02_ex_underscore_name show it on examples; the statement
-   c02_requests_intact of that file (spec_decode_blocks of the blocks = the requests' field lists) is NOT derived here.
+   those streams (stream ids: (a)); while the write loop lives every block the encoder produced has been written
+   (C02_request_blocks). With the SetMaxTableSize calls in between (C02_request_blocks_sizes_generic): each is given a
+   value cc_encTableSize had at the start of a step, i.e. the one of the handshake or the HEADER_TABLE_SIZE of a SETTINGS
+   frame the read loop took in (Proofs/CliMsgReqDecSz.v ets_step). An RFC 7541 decoder that reads the frames in order
+   gets exactly the requests' field lists and stays in step with the encoder: C02_requests_decode (any history),
+   C02_requests_intact (the statement c02_requests_intact of Props/C02_statements.v: the server does not change
+   HEADER_TABLE_SIZE after the handshake).
    The body: Props/C07.v (C07_upload_whole_run: the DATA payloads on the stream are a prefix of the request's body, whole
    with exactly one END_STREAM once the windows allow; buffered or streamed, declared or unknown length, a reader that
    returns more than the declared length is cut at it: rq_body; C07_completes_when_granted). *)
@@ -203,6 +207,76 @@ Theorem C02_end_stream_on_headers :
     exists tag x, cl_ctx_get c tag = Some x /\ ct_sid x = id /\ es = negb (rq_has_body (ct_req x)).
 Proof. exact @end_stream_on_headers. Qed.
 Print Assumptions C02_end_stream_on_headers.
+
+(* generic in the HPACK coder, with the SetMaxTableSize calls (inl n) between the blocks (inr): every size the encoder
+   is given satisfies any predicate that holds of cc_encTableSize at the start of every step *)
+Theorem C02_request_blocks_sizes_generic :
+  forall hstate (dec_field : hstate -> N -> bytes -> dec_res hstate) enc_field enc_set_max cfg h0 first (Psz : N -> Prop) evs,
+    let run := cl_run dec_field enc_field enc_set_max cfg h0 first in
+    (forall pre post, evs = (pre ++ post)%list -> Psz (cc_encTableSize (run pre))) ->
+    exists ops : list (N + rentry),
+      hdrs_of (cl_trace (run evs)) = map re_hdr (rights_of ops) /\
+      (forall id tag rq blk, In (id, tag, rq, blk) (rights_of ops) ->
+         id <> 0 /\ exists x, cl_ctx_get (run evs) tag = Some x /\ ct_sid x = id /\ ct_req x = rq) /\
+      Forall Psz (sizes_of ops) /\
+      exists e, enc_chain_s enc_field enc_set_max (cc_enc (cl_init enc_set_max h0 first)) (map rop_eop ops) e /\
+                (cl_wl_live (run evs) = true -> e = cc_enc (run evs)).
+Proof. exact @request_blocks_sizes. Qed.
+Print Assumptions C02_request_blocks_sizes_generic.
+
+(* cc_encTableSize only changes when the read loop takes in a SETTINGS frame that carries HEADER_TABLE_SIZE *)
+Theorem C02_table_size_provenance :
+  forall hstate (dec_field : hstate -> N -> bytes -> dec_res hstate) enc_field enc_set_max cfg (c : cconn hstate) e,
+    cc_encTableSize (cl_step dec_field enc_field enc_set_max cfg c e) = cc_encTableSize c \/
+    exists fr st, e = CEvRL (RFrame fr) /\ sf_sid fr = 0 /\ sf_kind fr = KSettings /\ flag_has (sf_flags fr) FL_ES = false /\
+      cl_rl_live c = true /\ cc_netClosed c = false /\
+      cl_settings_deserialize false (sf_payload fr) = Some st /\ cl_settings_has st c_HeaderTableSize = true /\
+      cc_encTableSize (cl_step dec_field enc_field enc_set_max cfg c e) = cs_table st.
+Proof. exact @ets_step. Qed.
+Print Assumptions C02_table_size_provenance.
+
+(* THE SERVER RECEIVES EACH REQUEST EXACTLY AS GIVEN, for every history.
+   Vocabulary (Proofs/CliMsgReqDec.v):
+     ops : list (N + rentry)       what the encoder did, in order: inl n = SetMaxTableSize(n), inr (stream, tag, rq, blk) = a block
+     announced first evs n         n is the table size of the handshake or the HEADER_TABLE_SIZE of a SETTINGS frame of evs
+     cli_dec0 first                the server's decoder after the handshake: RFC 7541's initial table (maximum size 4096), the
+                                   limit at the value the client took from the first SETTINGS (values above 4096 are not taken)
+     dec_ops d [..]                the decoder of Spec/Rfc7541.v over the blocks in order (spec_decode_block), its limit set
+                                   (spec_set_limit) where the client's encoder is given the new size - RFC 7541 4.2: the limit
+                                   is the value the decoder announced and the encoder acknowledged
+     triple (k, v) = (k, v, false) a field, not never-indexed;  request_fields rq: Proofs/CliDefs.v
+     Inv enc dec pend / in_sync    Proofs/HpackEncBlock.v, Proofs/HpackEncDefs.v (C04): the decoder's table is the encoder's
+                                   (after a size change: once the update the next block starts with has been read)
+   HYPOTHESES  sizes_small evs: every HEADER_TABLE_SIZE the server sends is below 2^31;
+               requests_ok evs: every request submitted is made of bytes, every field shorter than 2^31 - 32.
+   Decoding succeeds and yields, block by block, exactly the request's field list - same names, values and order, nothing
+   never-indexed; while the write loop lives the decoder is in step with the client's encoder. *)
+Theorem C02_requests_decode :
+  forall cfg first evs,
+    sizes_small evs -> requests_ok evs ->
+    exists ops : list (N + rentry),
+      headers_of (cli_tr cfg first evs) = map re_hdr (rights_of ops) /\
+      (forall id tag rq blk, In (id, tag, rq, blk) (rights_of ops) ->
+         id <> 0 /\ exists x, cst_ctx (cli_run cfg first evs) tag = Some x /\ ct_sid x = id /\ ct_req x = rq) /\
+      Forall (announced first evs) (sizes_of ops) /\
+      exists d pend,
+        dec_ops (cli_dec0 first) (map rop_dop ops) = Some (map (fun r => map triple (request_fields (re_rq r))) (rights_of ops), d) /\
+        (cl_wl_live (cli_run cfg first evs) = true ->
+         HpackEncBlock.Inv (cc_enc (cli_run cfg first evs)) d pend /\
+         (h_pending (cc_enc (cli_run cfg first evs)) = false -> in_sync (cc_enc (cli_run cfg first evs)) d = true)).
+Proof. exact cli_requests_decode. Qed.
+Print Assumptions C02_requests_decode.
+
+(* the blocks dec_ops is given are the payloads of the HEADERS frames, in order *)
+Theorem C02_requests_decode_blocks :
+  forall tr (ops : list (N + rentry)), headers_of tr = map re_hdr (rights_of ops) -> header_blocks tr = rights_of (map rop_dop ops).
+Proof. exact header_blocks_ops. Qed.
+Print Assumptions C02_requests_decode_blocks.
+
+(* the statement of Props/C02_statements.v (corrected there): the server keeps the HEADER_TABLE_SIZE of its first SETTINGS *)
+Theorem C02_requests_intact : c02_requests_intact.
+Proof. exact cli_requests_intact. Qed.
+Print Assumptions C02_requests_intact.
 
 (* ================= (d) cancellation and timeouts in between ================= *)
 (* qm P c c' (Proofs/CliMsgMoves.v): c' differs from c by a "quiet move": the read loop's decoder and header-block
@@ -280,3 +354,37 @@ Proof. exact ex_cancelled_ok. Qed.
 Example C02_example_idle_stream :
   cli_never_idleb ex_cfg [] [CEvRL (ex_headers 1 true ex_block_404); CEvSubmit 0 ex_get true; CEvWLIn] = false.
 Proof. exact ex_idle_stream. Qed.
+
+(* (b): the hypotheses of C02_requests_decode hold of a run with three requests (the second repeats the first, so its block
+   refers to the dynamic table) and a SETTINGS frame that lowers HEADER_TABLE_SIZE to 100 in between (table_size_fixed
+   does not hold of it) *)
+Example C02_example_decode_hyps : sizes_small ex_dec_evs /\ requests_ok ex_dec_evs /\ table_size_frame ex_dec_evs 100.
+Proof. exact ex_dec_hyps. Qed.
+
+Example C02_example_decode :
+  headers_of (cli_tr ex_cfg [] ex_dec_evs) =
+    [(1, true, [65; 129; 159; 130; 132; 135; 122; 129; 183; 0; 131; 242; 176; 255; 129; 15]);
+     (3, true, [63; 69; 191; 130; 132; 135; 190; 0; 131; 242; 176; 255; 129; 15]);
+     (5, false, [191; 131; 132; 135; 186])] /\
+  (exists d, dec_ops (cli_dec0 []) (inr (A:=N) [65; 129; 159; 130; 132; 135; 122; 129; 183; 0; 131; 242; 176; 255; 129; 15] :: inl 100 ::
+                                 inr [63; 69; 191; 130; 132; 135; 190; 0; 131; 242; 176; 255; 129; 15] :: inr [191; 131; 132; 135; 186] :: nil)
+             = Some (map (fun rq => map triple (request_fields rq)) [ex_rq_xa; ex_rq_xa; ex_post (CBuf [1; 2])], d) /\
+             in_sync (cc_enc (cli_run ex_cfg [] ex_dec_evs)) d = true /\ dt_max d = 100 /\ List.length (dt_entries d) = 2%nat) /\
+  request_fields ex_rq_xa = [(S_authority, [104]); (S_method, [71; 69; 84]); (S_path, [47]); (S_scheme, [104; 116; 116; 112; 115]);
+                             (S_user_agent, [117]); ([120; 45; 97], [49])].
+Proof. exact ex_dec_run. Qed.
+
+(* the hypotheses of C02_requests_intact hold of the two requests of ex_two_ok *)
+Example C02_example_intact_hyps :
+  cl_settings_deserialize false [] <> None /\ table_size_fixed CliMsgInst.ex_two_ok /\ requests_ok CliMsgInst.ex_two_ok.
+Proof. exact ex_intact_hyps. Qed.
+
+(* OBSERVATION (b): the header block that carries the size update for a raised HEADER_TABLE_SIZE can be written before the
+   SETTINGS ACK (still in the out queue here); a decoder whose limit is still 4096 refuses it *)
+Example C02_example_size_update_before_ack :
+  let evs := [CEvSubmit 0 ex_get true; CEvRL (ex_settings 1 8192); CEvWLIn] in
+  (exists b, headers_of (cli_tr ex_cfg [] evs) = [(1, true, 63 :: 225 :: 63 :: b)]) /\
+  existsb (fun o => match o with COSettingsAck => true | _ => false end) (cli_tr ex_cfg [] evs) = false /\
+  cc_outQ (cli_run ex_cfg [] evs) = [COSettingsAck] /\
+  spec_decode_block (dtable_init 4096) (snd (hd (0, true, []) (headers_of (cli_tr ex_cfg [] evs)))) = None.
+Proof. exact ex_size_update_before_ack. Qed.
